@@ -274,6 +274,35 @@ def exec_new(ctx, league, op):
     return league.join(op["name"], **kw)
 
 
+def malformed_call(ctx, league, o, tracer=None):
+    """Execute a MALFORMED op on the league's model.  Returns (status, value, verdict); the
+    verdict is O_reject's (C13 only): None, or (violation class, detail) - it is RETURNED,
+    not raised, because the caller may be a worker thread."""
+    teams = league.teams_of(o["teams"])
+    call, args, kw = faults.build_call(o["fault"], league.cfg["model"], teams)
+    c13 = ctx.prop == "C13"
+    if c13:
+        objs = reachable_ratings([args, kw, teams])
+        pre_r = rating_digest(objs)
+    fn = lambda: faults.invoke(league.model, call, args, kw)
+    st, val = tracer(fn) if tracer is not None else call_outcome(fn)
+    verdict = None
+    if c13 and st != "crash":
+        post_r = rating_digest(objs)
+        label = faults.fault_label(o["fault"])
+        det = {"fault": o["fault"], "teams": o["teams"], "snap": snap_teams(league.teams_of(o["teams"]))}
+        if st == "ok":
+            verdict = ("C13/accepted:%s" % label, det)
+        elif not isinstance(val, (TypeError, ValueError)):
+            verdict = ("C13/wrong_exception:%s:%s" % (label, type(val).__name__), dict(det, message=str(val)[:200]))
+        elif pre_r != post_r:
+            changed = [i for i, (a, b) in enumerate(zip(pre_r, post_r)) if a != b]
+            verdict = ("C13/side_effect:%s:rating" % label, dict(det, exception=type(val).__name__, changed=len(changed), before=pre_r[changed[0]], after=post_r[changed[0]]))
+        if len(objs) > 0:
+            ctx.nontrivial.add(h64([league.cfg["model"], label, o["fault"].get("pos"), o["fault"].get("len"), det["snap"], "service"]))
+    return st, val, verdict
+
+
 def call_outcome(fn):
     try:
         return ("ok", fn())
@@ -416,6 +445,10 @@ def gen_malformed_op(rng, ctx, names, league, calls=faults.CALLS):
     if teams is None:
         return None
     g = faults.grammar([len(t) for t in teams], ctx.cfg["model"], calls=calls)
+    if ctx.params.get("p_thread_malformed") and rng.random() < 0.5:
+        # service flavour of C13: half of the malformed requests have a bad SELECTOR (length,
+        # element, container) - what a concurrent call with another team count could mask
+        g = [f for f in g if f.get("arg") in ("ranks", "scores", "both")] or g
     return {"op": "MALFORMED", "teams": teams, "fault": rng.choice(g)}
 
 
@@ -594,6 +627,7 @@ class CallsDriver:
         return {"op": "NEW", "name": "p%d" % len(names)}
 
     n_gen = 0
+    had_phase = False
     _rosters = None
 
     def fixed_rosters(self, rng, names):
@@ -674,6 +708,8 @@ class CallsDriver:
                     o = gen_predict_op(rng, g, self.league, shape=(rng.choice([2, 2, 3]), rng.choice([1, 2])))
                     if o:
                         o["kind"] = rng.choice(["draw", "rank", "draw", "win"])
+                elif "p_thread_malformed" in p and r >= 1 - p["p_thread_malformed"]:
+                    o = gen_malformed_op(frng, ctx, g, self.league, calls=("rate", "rate", "rate", "win", "draw", "rank"))
                 elif r < 0.75:
                     o = gen_rate_op(rng, ctx, self.league, g, max(p["opt_rate"], 0.4), shape=(3, 2), rule=p["rule"])
                 elif r < 0.9:
@@ -690,7 +726,14 @@ class CallsDriver:
             threads.append(ops)
         if sum(1 for t in threads if t) < 2:
             return None
-        op = {"op": "CONCURRENT", "threads": threads, "gran": "opcode" if rng.random() < 0.15 else "line"}
+        # the first library calls of a process are where lazily initialised state is set up
+        # (check-then-act inside a line or two): a threaded phase that meets the library cold is
+        # far more often pre-empted at every bytecode instruction
+        cold = self.n_calls == 0 and not self.had_phase
+        self.had_phase = True
+        op = {"op": "CONCURRENT", "threads": threads, "gran": "opcode" if rng.random() < (0.4 if cold else 0.15) else "line"}
+        if cold:
+            ctx.count("threaded_phase_on_cold_library")
         if "crash" in p["faults_on"] and frng.random() < 0.2:
             ti = frng.randrange(k)
             if threads[ti]:
@@ -834,6 +877,29 @@ class CallsDriver:
                 ctx.violation("C14/result_differs_from_isolated:%s" % hist, {"op": op, "snap": rec["snap"], "got": out, "isolated": ref, "isolated_ids": ids or "fresh", "pristine_library_copy": lib is not None})
             if nontrivial:
                 ctx.nontrivial.add(h64([ctx.cfg["model"], rec["snap"], op.get("ranks"), op.get("scores"), op.get("tau"), op.get("limit_sigma"), op.get("kind"), hist]))
+        elif ctx.prop == "C13":
+            # every well-formed call is accepted - also while other calls are in flight
+            ctx.evaluations += 1
+            ctx.count("wellformed_in_service:" + hist)
+            if out[0] == "exc" and out[1] in ("TypeError", "ValueError"):
+                ctx.violation("C13/rejected_wellformed:%s_in_service" % op["op"].lower(), {"op": op, "snap": rec["snap"], "exception": out[1], "history": hist})
+        elif ctx.prop == "C06":
+            if op["op"] != "RATE" or out[0] != "ok" or rec.get("shape_bad"):
+                return
+            kwargs = cfg["kwargs"]
+            tau = dec(op["tau"]) if "tau" in op else dec(kwargs["tau"])
+            limit = op["limit_sigma"] if "limit_sigma" in op else bool(kwargs["limit_sigma"])
+            where = {"model": cfg["model"], "op": op, "snap": rec["snap"], "gamma": kwargs.get("gamma"), "history": hist,
+                     "tau_source": "per_call_tau" if "tau" in op else "model_tau",
+                     "limit_source": "per_call_limit" if "limit_sigma" in op else "model_limit"}
+            ctx.evaluations += 1
+            ctx.count("sigma_bounds_checked_in_service:" + hist)
+            try:
+                check_sigma(dec(rec["snap"]), dec(out[1]), float(tau), limit, where)
+            except Violation as v:
+                raise Violation(v.prop, v.cls, v.detail, ctx.i)
+            if nontrivial and hist == "threaded":
+                ctx.nontrivial.add(h64([cfg["model"], rec["snap"], op.get("ranks"), op.get("scores"), op.get("tau"), op.get("limit_sigma"), hist]))
         elif ctx.prop == "C15":
             if op["op"] != "RATE" or out[0] != "ok":
                 return
@@ -882,11 +948,18 @@ class CallsDriver:
         ctx = self.ctx
         names = op["teams"]
         self.league.ensure(flat(names))
-        teams = self.league.teams_of(names)
-        call, args, kw = faults.build_call(op["fault"], ctx.cfg["model"], teams)
         pre = model_state(self.league.model)
-        st, val = call_outcome(lambda: faults.invoke(self.league.model, call, args, kw))
+        st, val, verdict = malformed_call(ctx, self.league, op)
         ctx.fault("malformed")
+        if ctx.prop == "C13":
+            ctx.evaluations += 1
+            ctx.count("malformed_in_service:sequential")
+            if verdict is None:
+                d = diff_state(pre, model_state(self.league.model))
+                if d:
+                    verdict = ("C13/side_effect:%s:model.%s" % (faults.fault_label(op["fault"]), ",".join(d)), {"fault": op["fault"], "teams": names})
+            if verdict:
+                ctx.violation(*verdict)
         self.check_model(pre, "MALFORMED")
         ctx.log("MALFORMED", faults.fault_label(op["fault"]), st if st == "ok" else type(val).__name__)
         self.prev = "reject"
@@ -947,10 +1020,8 @@ class CallsDriver:
                 for k, o in enumerate(ops):
                     sw0 = sc.switches
                     if o["op"] == "MALFORMED":
-                        teams = league.teams_of(o["teams"])
-                        call, args, kw = faults.build_call(o["fault"], league.cfg["model"], teams)
-                        st, val = tracer(lambda: faults.invoke(league.model, call, args, kw))
-                        rec = {"op": o, "out": ("rejected", st if st != "exc" else type(val).__name__)}
+                        st, val, verdict = malformed_call(ctx, league, o, tracer)
+                        rec = {"op": o, "out": ("rejected", st if st != "exc" else type(val).__name__), "verdict": verdict}
                     else:
                         rec = exec_call(ctx, league, o, tracer)
                         if rec["out"][0] == "crash":
@@ -1009,6 +1080,12 @@ class CallsDriver:
         # per-call reference executions, after the join
         for ti in range(n):
             for rec in records[ti]:
+                if rec["op"]["op"] == "MALFORMED" and ctx.prop == "C13" and rec["out"][1] != "crash":
+                    # O_reject holds for a malformed call whoever else is using the model
+                    ctx.evaluations += 1
+                    ctx.count("malformed_in_service:threaded")
+                    if rec.get("verdict"):
+                        ctx.violation(rec["verdict"][0], dict(rec["verdict"][1], thread=ti, history="threaded"))
                 if rec["op"]["op"] == "MALFORMED" or rec["out"][0] == "crash":
                     continue
                 self.judge(rec, "threaded", nontrivial=(rec["switched"] > 0 or n > 1))
@@ -1090,6 +1167,24 @@ def c06_params(rng):
         "shape": rng.choice([[2, 1], [2, 2], [4, 3], [8, 8], [3, 1], [6, 2], [7, 1], [5, 3], [8, 2]]),
         "p_restart": rng.choice([0.0, 0.02, 0.1]),
     }
+
+
+def c06_params_all(rng):
+    """C06 runs: the closed-loop league of SigmaDriver, and - in a small share of runs - the
+    rating SERVICE of the C14/C15 checks (one shared model, worker threads on disjoint players,
+    calls carrying other options in flight at the same time, killed and rejected calls in
+    between) with the sigma bounds evaluated on every completed rate call: the bounds are a
+    postcondition of each call, whoever else is using the model at that moment."""
+    p = c06_params(rng)
+    if rng.random() < 0.05:
+        q = _calls_params(rng, "C15")
+        q.update(threaded=True, threaded_service=True, length=rng.choice([8, 12, 20]), pristine_refs=False, p_extreme=0.0, house_outcomes=False)
+        return q
+    return p
+
+
+def c06_driver(ctx):
+    return CallsDriver(ctx) if ctx.params.get("threaded_service") else SigmaDriver(ctx)
 
 
 class SigmaDriver:
@@ -1247,6 +1342,24 @@ def c13_params(rng):
     }
 
 
+def c13_params_all(rng):
+    """C13 runs: the complete enumeration of RejectDriver, and - in a small share of runs - the
+    rating SERVICE of the C14/C15 checks (one shared model, worker threads on disjoint
+    players) in which a large share of the requests is malformed: a malformed call must be
+    refused, and a well-formed one accepted, whoever else is inside the library right now."""
+    p = c13_params(rng)
+    if rng.random() < 0.5:
+        q = _calls_params(rng, "C15")
+        q.update(threaded=True, threaded_service=True, length=rng.choice([8, 12, 20]), pristine_refs=False, p_extreme=0.0, p_other_model=0.0,
+                 house_outcomes=False, faults_on=["malformed"], p_fault=0.15, p_thread_malformed=0.45)
+        return q
+    return p
+
+
+def c13_driver(ctx):
+    return CallsDriver(ctx) if ctx.params.get("threaded_service") else RejectDriver(ctx)
+
+
 class RejectDriver:
     """Malformed-call faults enumerated at every position of games reached in a league (C13)."""
 
@@ -1372,18 +1485,25 @@ class RejectDriver:
                 ctx.count("malformed_with_per_call_options")
             objs = reachable_ratings([args, kw, teams])
             pre_r = rating_digest(objs)
-            pre_m = model_state(league.model)
-            st, val = call_outcome(lambda: faults.invoke(league.model, call, args, kw))
+            target = league.model
+            if not desc.get("inplace") and h64([label, desc.get("pos"), desc.get("len")]) % 6 == 0:
+                # the service has just been restarted: a model object constructed a moment ago,
+                # and the very first call it ever sees is this malformed one (state that
+                # validation sets up lazily must not appear on a model that refuses the call)
+                target = build_model(ctx.cfg)
+                ctx.fault("malformed_first_call_on_new_model")
+            pre_m = model_state(target)
+            st, val = call_outcome(lambda: faults.invoke(target, call, args, kw))
             ctx.evaluations += 1
             ctx.fault("malformed")
             if st != "ok" and (len(label) + len(names)) % 5 == 0 and not any(k in label for k in ("generator", "map")):
                 # the very same malformed call once more: it must be refused the same way
-                st2, val2 = call_outcome(lambda: faults.invoke(league.model, call, args, kw))
+                st2, val2 = call_outcome(lambda: faults.invoke(target, call, args, kw))
                 ctx.count("malformed_call_repeated")
                 if st2 == "ok" or type(val2) is not type(val):
                     st, val = st2, val2
             post_r = rating_digest(objs)
-            post_m = model_state(league.model)
+            post_m = model_state(target)
             if saved is not None:
                 faults.undo_inplace(teams, saved)
             det = {"fault": desc, "teams": names, "snap": snap_teams(league.teams_of(names))}
@@ -1523,7 +1643,7 @@ def c20_params(rng):
         "length": rng.choice([10, 25, 60, 150, 600] if rng.random() < 0.1 else [10, 25, 60, 150]),
         "players": rng.choice([4, 6, 10, 16]),
         "population": rng.choice(["default", "mixed", "spread", "spread"]),
-        "opt_rate": rng.choice([0.0, 0.2]),
+        "opt_rate": rng.choice([0.0, 0.2, 0.5]),
         "p_restart": rng.choice([0.1, 0.3, 0.6]),
         "p_crash": rng.choice([0.0, 0.05, 0.15]),
         "p_abort": rng.choice([0.0, 0.05, 0.15]),
@@ -1623,7 +1743,12 @@ class StoreDriver:
         if r < p.get("p_abort", 0.0):
             inner = gen_rate_op(rng, ctx, self.A, names, p["opt_rate"], maker=p["maker"], rule=p["rule"])
             if inner:
-                return {"op": "ABORT", "inner": inner, "at": int(1 + 500 * frng.random() ** 2), "path": frng.choice(["rating", "create_rating"])}
+                retry = True
+                if frng.random() < 0.5:
+                    # the request that timed out is dropped, not retried; its players play on
+                    self.pending.extend(self.follow_ups(frng, inner))
+                    retry = False
+                return {"op": "ABORT", "inner": inner, "at": int(1 + 500 * frng.random() ** 2), "path": frng.choice(["rating", "create_rating"]), "retry": retry}
         if r > 0.985 and p.get("reseed_random"):
             return {"op": "RESEED_RANDOM"}
         if r < p.get("p_abort", 0.0) + p.get("p_fork", 0.0):
@@ -1664,6 +1789,24 @@ class StoreDriver:
 
     _rosters = None
     mass_done = False
+
+    def follow_ups(self, frng, inner):
+        """The players of a call that was killed play again at once: the same game with the
+        limit switched the other way and a tau large enough to move sigma upward, then once
+        more with the limit as it was (whatever the killed call parked on the objects it was
+        working on meets other options first, and its own options again afterwards)."""
+        kw = self.ctx.cfg["kwargs"]
+        lim = inner["limit_sigma"] if "limit_sigma" in inner else bool(kw["limit_sigma"])
+        beta = dec(kw["beta"])
+        out = []
+        for flip in (True, False):
+            f = {k: v for k, v in copy.deepcopy(inner).items() if k not in ("tau", "limit_sigma")}
+            f["limit_sigma"] = (not lim) if flip else bool(lim)
+            f["tau"] = enc(frng.choice([0.5, 1.0, 2.0]) * beta)
+            f["follow_up"] = True
+            out.append(f)
+        self.ctx.count("follow_up_games_after_killed_call", 2)
+        return out
 
     def fixed_rosters(self, rng, names):
         if not self.ctx.params.get("fixed_rosters"):
@@ -2035,7 +2178,10 @@ def _op_ABORT(self, op):
         self.ever_restored.add(n)
     ctx.probe("abort_then_repair_in_place_vs_rebuild")
     ctx.log("ABORT", fired)
-    self.op_RATE(inner)
+    if op.get("retry", True):
+        self.op_RATE(inner)
+    else:
+        ctx.count("killed_call_not_retried")
 
 
 def _op_FORK_RESTORE(self, op):
@@ -2164,8 +2310,8 @@ StoreDriver.op_DEEPCOPY_HISTORY = _op_DEEPCOPY_HISTORY
 
 
 DRIVERS = {
-    "C06": (SigmaDriver, c06_params),
-    "C13": (RejectDriver, c13_params),
+    "C06": (c06_driver, c06_params_all),
+    "C13": (c13_driver, c13_params_all),
     "C14": (CallsDriver, lambda rng: calls_params(rng, "C14")),
     "C15": (CallsDriver, lambda rng: calls_params(rng, "C15")),
     "C20": (StoreDriver, c20_params),
